@@ -581,3 +581,95 @@ func init() {
 		return f, nil
 	}
 }
+
+// TestC18Heartbeat keeps subscriptions delivering over a slow link across the 4 s heartbeat tick: the keep-alive
+// frame must not cut into a data frame (and everything must still be torn down afterwards).
+func TestC18Heartbeat(t *testing.T) {
+	if !verifhook.Enabled {
+		t.Fatal("C18 needs -tags verif")
+	}
+	rec := ev.Get("C18")
+	conns := 3
+	if ev.Thorough() {
+		conns = 8
+	}
+	var wg sync.WaitGroup
+	fails := make(chan *ev.Failure, conns)
+	for k := 0; k < conns; k++ {
+		wg.Add(1)
+		go func(k int) {
+			defer wg.Done()
+			w := teardownWorld()
+			net, _ := fake.NewNet(w)
+			up := subx.NewUpstream(net)
+			gw, err := gwx.BuildWithFactory(w, net, gwx.Config{}, up.Factory())
+			if err != nil {
+				fails <- ev.Failf("harness", "%v", err)
+				return
+			}
+			// a writer is descheduled for 20-40 ms between frame header and payload: most of the time a frame is half written
+			cc, err := subx.ConnectPausing(gw, time.Duration(20+10*k%3)*time.Millisecond)
+			if err != nil {
+				fails <- ev.Failf("harness", "%v", err)
+				return
+			}
+			defer cc.Close()
+			cc.SendJSON(map[string]interface{}{"type": "connection_init"})
+			cc.SendJSON(map[string]interface{}{"type": "start", "id": "h1", "payload": map[string]interface{}{"query": teardownOps[1]}})
+			var sub *subx.UpSub
+			select {
+			case sub = <-up.NewSub:
+			case <-time.After(3 * time.Second):
+				fails <- ev.Failf("harness", "subscription not started")
+				return
+			}
+			stop := time.After(4700 * time.Millisecond)
+			var frameErr string
+			kas, datas := 0, 0
+			done := make(chan struct{})
+			go func() {
+				defer close(done)
+				for f := range cc.Frames {
+					if f.Err != "" && frameErr == "" {
+						frameErr = f.Err + " (" + subx.Dump(f.Payload) + ")"
+					}
+					if f.Msg != nil && f.Msg["type"] == "ka" {
+						kas++
+					}
+					if f.Msg != nil && f.Msg["type"] == "data" {
+						datas++
+					}
+				}
+			}()
+		loop:
+			for {
+				select {
+				case <-stop:
+					break loop
+				default:
+					sub.Emit(&requests.Response{Data: map[string]interface{}{"tick": 1}}, time.Second)
+				}
+			}
+			cc.Close()
+			<-done
+			<-cc.HandlerDone
+			rec.Case(ev.Hash("heartbeat", k), true, "heartbeatCase")
+			rec.AddExtra("heartbeat_frames_seen", kas)
+			rec.AddExtra("data_frames_during_heartbeat_cases", datas)
+			if frameErr != "" {
+				fails <- ev.Failf("frame", "a frame was corrupted around the heartbeat: %s", frameErr)
+				return
+			}
+			if !sub.WaitClosed(2 * time.Second) {
+				fails <- ev.Failf("upstream-open", "upstream not closed after the heartbeat case")
+			}
+		}(k)
+	}
+	wg.Wait()
+	close(fails)
+	for f := range fails {
+		c := &TeardownCase{NSubs: 1, HeaderPauseUS: 30000, Steps: []TStep{{Actor: "client", Kind: "init", Wait: true}, {Actor: "client", Kind: "start", Wait: true}}}
+		ev.WriteFail("C18", map[string]interface{}{"heartbeat_case": true, "case": c}, f)
+		t.Fatalf("%v", f)
+	}
+}
